@@ -269,6 +269,60 @@ pub fn run() {
         let circ = interleave(r, &circ);
         check_circuit("tiny-ancilla-dense", i, &circ);
     });
+    // the same with compound gates (pp, rx/rz at any multiple of pi/4, xcx, swap) next to the
+    // ancilla handling: they leave plain-edge leaves and unsimplified gadgets behind
+    par_cases("tiny-ancilla-compound", n * 4, move |r, i| {
+        let nqb = 1 + r.below(3);
+        let mut gates = vec![];
+        for q in 0..nqb {
+            if r.chance(0.5) {
+                gates.push(G::InitAnc(q));
+            }
+        }
+        let d = r.below(8);
+        for _ in 0..d {
+            let q = r.below(nqb);
+            let other = |r: &mut Rng| {
+                let b = r.below(nqb);
+                if b == q {
+                    (q + 1) % nqb
+                } else {
+                    b
+                }
+            };
+            let ph = (r.range(-3, 4), 4);
+            let g = match r.below(14) {
+                0 => G::T(q),
+                1 => G::S(q),
+                2 | 3 => G::H(q),
+                4 => G::Z(q),
+                5 => G::X(q),
+                6 | 7 => {
+                    let mut qs = vec![q];
+                    if nqb >= 2 && r.chance(0.4) {
+                        qs.push(other(r));
+                    }
+                    G::Pp(qs, ph)
+                }
+                8 => G::Rz(q, ph),
+                9 => G::Rx(q, ph),
+                10 if nqb >= 2 => G::Xcx(q, other(r)),
+                11 if nqb >= 2 => G::Swap(q, other(r)),
+                12 if nqb >= 2 => G::Cx(q, other(r)),
+                13 if nqb >= 2 => G::Cz(q, other(r)),
+                _ => G::Tdg(q),
+            };
+            gates.push(g);
+        }
+        for q in 0..nqb {
+            if r.chance(0.6) {
+                gates.push(G::PostSel(q));
+            }
+        }
+        let circ = Circ { n: nqb, gates };
+        let circ = interleave(r, &circ);
+        check_circuit("tiny-ancilla-compound", i, &circ);
+    });
     par_cases("swap-heavy", n / 2, move |r, i| {
         let mut p = CircParams::unitary(nq.min(4), depth / 2, PhPool::Exact);
         p.ccz = false;
@@ -304,6 +358,17 @@ pub fn run() {
         let circ = gen_circuit(r, &p);
         let circ = interleave(r, &circ);
         check_circuit("wide-shallow", i, &circ);
+    });
+    // 100-400 gates on 2-4 qubits (vertex ids far above 64 while the translation is running)
+    par_cases("long-narrow", t.pick(120usize, 6_000usize), move |r, i| {
+        let d = *r.pick(&[100usize, 180, 400]);
+        let mut p = CircParams::unitary(4, d, PhPool::Exact);
+        p.min_qubits = 2;
+        p.ccz = r.chance(0.3);
+        p.ancilla = r.chance(0.4);
+        let circ = gen_circuit(r, &p);
+        let circ = if p.ancilla { interleave(r, &circ) } else { circ };
+        check_circuit("long-narrow", i, &circ);
     });
     par_cases("ccz-toffoli", n / 4, move |r, i| {
         let mut p = CircParams::unitary(nq.max(3), 8, PhPool::Exact);
